@@ -29,7 +29,7 @@ type lcEvent struct {
 
 func TestC05LeastConnections(t *testing.T) {
 	const openKey = keyLC
-	sub := lab.Sub("lc-model", "rapid histories (5..60 events of start/finish(j)/eject/recover/add/remove, pool 1..8) against lb.ServeHTTP with every backend parking its "+
+	sub := lab.Sub("lc-model", "rapid histories (5..60 events of start/finish(j)/eject/recover/add/remove, pool 1..8, in half of the cases with drawn non-uniform weights 0..10) against lb.ServeHTTP with every backend parking its "+
 		"requests in the L1 fake network, virtual time; half of the cases start from a drawn in-flight vector (each from {0,1,2,3,5,6,99,100,101,500}) set through Backend.IncrementConnections; "+
 		"oracle after every start: the request arrived at an eligible backend whose in-flight count was minimal among eligible backends; "+
 		"non-trivial = at least one start with >=2 eligible backends whose in-flight counts were not all equal")
@@ -38,6 +38,7 @@ func TestC05LeastConnections(t *testing.T) {
 	sub.Floor("preloaded-vector", 0.3)
 	sub.Floor("finish-used", 0.5)
 	sub.Floor("inflight-99plus", 0.2)
+	sub.Floor("non-uniform-weights", 0.4)
 	excl := excluded(openKey)
 	if excl {
 		sub.Floor("start-while-ejected", 0.15) // most such starts fall into the excluded region
@@ -49,13 +50,22 @@ func TestC05LeastConnections(t *testing.T) {
 	lab.Check(t, sub, 2000, 40000, func(rt *rapid.T) {
 		n0 := rapid.IntRange(1, 8).Draw(rt, "n0")
 		preload := rapid.Bool().Draw(rt, "preload")
+		weighted := rapid.Bool().Draw(rt, "weighted")
 		nev := rapid.IntRange(5, maxEv).Draw(rt, "events")
 		var evs []lcEvent
 		var pre []int
 		var viol string
 		informative, startsWhileEjected, finishes, ties, excludedStarts := 0, 0, 0, 0, 0
 		rapid.SyncTest(rt, func(rt *rapid.T) {
-			p, err := newPool("least_connections", lab.Ones(n0))
+			// weights play no part in least_connections (the statement compares in-flight counts
+			// only): half of the pools carry drawn, non-uniform weights
+			ws := lab.Ones(n0)
+			if weighted {
+				for i := range ws {
+					ws[i] = rapid.SampledFrom([]int{0, 1, 1, 2, 3, 5, 10}).Draw(rt, "weight")
+				}
+			}
+			p, err := newPool("least_connections", ws)
 			if err != nil {
 				rt.Fatalf("harness: %v", err)
 			}
@@ -207,7 +217,11 @@ func TestC05LeastConnections(t *testing.T) {
 					evs = append(evs, lcEvent{K: "recover", I: i, D: d.String()})
 					sweep()
 				case k < 95 && len(p.names) < 8:
-					name, err := p.add(1)
+					aw := 1
+					if weighted {
+						aw = rapid.SampledFrom([]int{0, 1, 2, 3, 5, 10}).Draw(rt, "add_weight")
+					}
+					name, err := p.add(aw)
 					if err != nil {
 						rt.Fatalf("harness: %v", err)
 					}
@@ -260,7 +274,10 @@ func TestC05LeastConnections(t *testing.T) {
 		if excludedStarts > 0 {
 			labels = append(labels, "starts-excluded-open-finding")
 		}
-		sub.Case(map[string]any{"n0": n0, "preload": pre, "events": evs}, informative > 0, labels...)
+		if weighted {
+			labels = append(labels, "non-uniform-weights")
+		}
+		sub.Case(map[string]any{"n0": n0, "preload": pre, "weighted": weighted, "events": evs}, informative > 0, labels...)
 		if viol != "" {
 			rt.Fatalf("least_connections n0=%d preload=%v events=%+v: %s", n0, pre, evs, viol)
 		}
